@@ -123,16 +123,37 @@ package table
 //@   invariant w != nil && w.err == nil && w.buf == buf && buf != nil && BufOwned[ref(buf)] && forall(Int(x), (old(BufOwned)[x] ==> (BufOwned[x] && BufC[x] == old(BufC)[x] && BufStore[x] == old(BufStore)[x])) && (BufOwned[x] ==> (old(BufOwned)[x] || x == ref(buf))), trig(BufOwned[x]), trig(old(BufOwned)[x]))
 //@   invariant BufC[ref(buf)] == DEnc[rangeindex + 1] && prevKey == dPrev(d.Entries, rangeindex + 1) && DEnc[0] == ""
 //
+// Content of the index block (C11): header le64(DataBlock.Offset) le64(DataBlock.Length), then per
+// entry le16(len(StartKey)) StartKey le16(len(EndKey)) EndKey le64(Offset) le64(Length); IEnc[i] is
+// the uncompressed byte string after the header and the first i entries (proved per iteration).
+//@ ghost IEnc (Array Int Str)
+//@ define iT1(b, e) = b + le16(u16(len(e.StartKey)))
+//@ define iT2(b, e) = iT1(b, e) + e.StartKey
+//@ define iT3(b, e) = iT2(b, e) + le16(u16(len(e.EndKey)))
+//@ define iT4(b, e) = iT3(b, e) + e.EndKey
+//@ define iT5(b, e) = iT4(b, e) + le64(e.DataHandle.Offset)
+//@ define iRec(b, e) = iT5(b, e) + le64(e.DataHandle.Length)
 //@ func (*table.Index).Encode -> r, err
 //@ props C11 C12
 //@ checked_conversions
-//@ assigns BufC, BufStore, BufOwned
+//@ assigns BufC, BufStore, BufOwned, IEnc
+//@ ensures IEnc[0] == le64(i.DataBlock.Offset) + le64(i.DataBlock.Length) && string(r) == s2c(IEnc[len(i.Entries)])
+//@ after_call (*utils.ErrorWriter).Write#1: assert w.err == nil && BufC[ref(buf)] == le64(i.DataBlock.Offset) + le64(i.DataBlock.Length)
+//@ after_call (*utils.ErrorWriter).Write#1: ghost IEnc = store(IEnc, 0, BufC[ref(buf)])
+//@ after_call (*utils.ErrorWriter).Write#2: assert w.err == nil && BufC[ref(buf)] == iT1(IEnc[rangeindex], entry)
+//@ after_call (*utils.ErrorWriter).Write#3: assert w.err == nil && BufC[ref(buf)] == iT2(IEnc[rangeindex], entry)
+//@ after_call (*utils.ErrorWriter).Write#4: assert w.err == nil && BufC[ref(buf)] == iT3(IEnc[rangeindex], entry)
+//@ after_call (*utils.ErrorWriter).Write#5: assert w.err == nil && BufC[ref(buf)] == iT4(IEnc[rangeindex], entry)
+//@ after_call (*utils.ErrorWriter).Write#6: assert w.err == nil && BufC[ref(buf)] == iT5(IEnc[rangeindex], entry)
+//@ after_call (*utils.ErrorWriter).Write#7: assert w.err == nil && BufC[ref(buf)] == iRec(IEnc[rangeindex], entry) && entry == i.Entries[rangeindex]
+//@ after_call (*utils.ErrorWriter).Write#7: ghost IEnc = store(IEnc, rangeindex + 1, iRec(IEnc[rangeindex], entry))
 //@ ensures forall(Int(x), old(BufOwned)[x] ==> (BufOwned[x] && BufC[x] == old(BufC)[x] && BufStore[x] == old(BufStore)[x]), trig(BufOwned[x]), trig(old(BufOwned)[x]))
 //@ ensures forall(Int(x), BufOwned[x] ==> old(BufOwned)[x], trig(BufOwned[x]))
 //@ ensures err == nil && (r != nil ==> arrid(r) >= old(alloc))
 //
 //@ loop 0:
 //@   invariant w != nil && w.err == nil && w.buf == buf && buf != nil && BufOwned[ref(buf)] && forall(Int(x), (old(BufOwned)[x] ==> (BufOwned[x] && BufC[x] == old(BufC)[x] && BufStore[x] == old(BufStore)[x])) && (BufOwned[x] ==> (old(BufOwned)[x] || x == ref(buf))), trig(BufOwned[x]), trig(old(BufOwned)[x]))
+//@   invariant BufC[ref(buf)] == IEnc[rangeindex + 1] && IEnc[0] == le64(i.DataBlock.Offset) + le64(i.DataBlock.Length)
 //
 //@ func table.Build -> ix, r
 //@ props C11 C12
